@@ -364,8 +364,20 @@ class Compiler:
         fs = src(f)
         if fs.startswith('logger.') or fs in ('print', 'warnings.warn'):
             return []
-        if isinstance(f, ast.Name) and f.id in LOCAL_INLINE and f.id in self.funcs:
-            return self.inline(self.funcs[f.id], None, c.args, sc, in_loop, (self.module, f.id))
+        if isinstance(f, ast.Name) and f.id in self.funcs:
+            # a module-level function of the same module: inlined when it is one of the registration
+            # functions or is handed a heap object (a class, a registry) - e.g. a private helper a
+            # maintainer extracted from one of them
+            heap_arg = any(isinstance(n, ast.Name) and sc.get(n.id) is not None
+                           and sc[n.id].kind in ('tbl', 'obj', 'listof')
+                           for a in list(c.args) + [k.value for k in c.keywords] for n in ast.walk(a))
+            stack = getattr(self, '_inline_stack', [])
+            if (f.id in LOCAL_INLINE or heap_arg) and f.id not in stack and not c.keywords:
+                self._inline_stack = stack + [f.id]
+                try:
+                    return self.inline(self.funcs[f.id], None, c.args, sc, in_loop, (self.module, f.id))
+                finally:
+                    self._inline_stack = stack
         if isinstance(f, ast.Attribute):
             # super().__init__(...) / yaml.SafeDumper.__init__(self, ...): PyYAML's instance set-up
             if f.attr == '__init__' and (src(f.value) == 'super()' or src(f.value).startswith('yaml.')):
